@@ -268,6 +268,9 @@ def sha_specs(tier):
         [['tag', 5], ['string', 120], ['null']], [['number', 12345], ['tag', 2], ['string', 51], ['string', 64]],
         [['null'], ['null'], ['boolean', True], ['tag', 1]],
         [['cstring', 'h\u00e9llo'], ['string', 4]], [['ctag', '\u65e5\u672c'], ['cstring', 'x\U0001F600y'], ['string', 40]], [['cstring', '\u00df' * 30], ['tag', 3]],
+        # strings of three-byte characters around 21 / 22 / 32 / 33 UTF-16 code units (a 64-byte buffer holds 21 of them)
+        [['cstring', '\u20ac' * 21], ['ctag', '\u20ac' * 22]], [['cstring', '\u65e5' * 32], ['null']], [['ctag', '\u20ac' * 25 + 'ab'], ['cstring', '\u65e5' * 33]],
+        [['cstring', 'a' * 31 + '\u20ac'], ['cstring', '\u00e9' * 32], ['string', 33]],
     ]
     if tier != 'quick':
         for L in range(40, 70):
